@@ -9,7 +9,8 @@ from vlib import env  # noqa: F401
 from vlib import gen, pyj
 from vlib import terms as T
 
-GENERIC_ENTRIES = ["stream_frames_gen", "stream_frames_sink", "flat_to_file", "grouped_to_file", "sink_serialize"]
+GENERIC_ENTRIES = ["stream_frames_gen", "stream_frames_sink", "flat_to_file", "grouped_to_file", "sink_serialize",
+                   "flat_to_file_default", "grouped_to_file_default"]
 
 
 @st.composite
@@ -22,7 +23,7 @@ def generic_write_case(draw, max_len=14, mode=None, phys=None):
         entry = draw(st.sampled_from(["stream_frames_gen", "stream_frames_sink"]))
     else:
         entry = draw(st.sampled_from(GENERIC_ENTRIES))
-    if not stmts and entry in ("flat_to_file", "sink_serialize", "grouped_to_file"):
+    if not stmts and entry in ("flat_to_file", "sink_serialize", "grouped_to_file", "flat_to_file_default", "grouped_to_file_default"):
         entry = "stream_frames_gen"
     delimited = True
     if entry in ("stream_frames_gen", "stream_frames_sink"):
@@ -39,7 +40,7 @@ def generic_write_case(draw, max_len=14, mode=None, phys=None):
         "statements": stmts,
         "reader": draw(st.sampled_from(["flat", "flat", "to_graph", "sink_parse"])),
     }
-    if entry == "sink_serialize":
+    if entry in ("sink_serialize", "flat_to_file_default", "grouped_to_file_default"):
         case["preset"] = [4000, 150, 32]
         case["frame_size"] = 250
         case["params"]["stream_name"] = ""
@@ -65,6 +66,10 @@ def write_generic(case):
         gser.grouped_stream_to_file((s for s in [pyj.generic_sink(stmts)]), out, options=pyj.make_options(case))
     elif entry == "sink_serialize":
         pyj.generic_sink(stmts).serialize(out)
+    elif entry == "flat_to_file_default":
+        gser.flat_stream_to_file((s for s in pyj.conv_stmts(stmts, "generic")), out)
+    elif entry == "grouped_to_file_default":
+        gser.grouped_stream_to_file((s for s in [pyj.generic_sink(stmts)]), out)
     else:
         raise ValueError(entry)
     return out.getvalue(), True
@@ -137,7 +142,8 @@ def features(case, data=None, delimited=True):
 
 
 # ============================================================================ rdflib
-RDFLIB_ENTRIES = ["serialize", "serialize_dest", "stream_frames", "flat_to_file", "grouped_to_file"]
+RDFLIB_ENTRIES = ["serialize", "serialize_dest", "stream_frames", "flat_to_file", "grouped_to_file",
+                  "serialize_default", "flat_to_file_default", "grouped_to_file_default", "serialize_path"]
 GROUPED_FOR = {"TRIPLES": [3, 13], "QUADS": [4, 14, 114], "GRAPHS": [4, 14, 114]}
 
 
@@ -147,9 +153,10 @@ def rdflib_write_case(draw, max_len=14, phys=None):
     arity = 3 if phys == "TRIPLES" else 4
     stmts = draw(gen.statement_seq(arity=arity, mode="rdflib", max_len=max_len))
     entry = draw(st.sampled_from(RDFLIB_ENTRIES))
-    if phys == "GRAPHS" and entry in ("flat_to_file", "grouped_to_file"):
+    if phys == "GRAPHS" and entry in ("flat_to_file", "grouped_to_file", "serialize_default", "flat_to_file_default",
+                                      "grouped_to_file_default", "serialize_path"):
         entry = "stream_frames"  # guess_stream never picks GraphStream
-    if not stmts and entry == "flat_to_file":
+    if not stmts and entry in ("flat_to_file", "flat_to_file_default"):
         entry = "serialize"
     flat_logical = 1 if phys == "TRIPLES" else 2
     delimited = True
@@ -158,6 +165,12 @@ def rdflib_write_case(draw, max_len=14, phys=None):
         delimited = draw(st.integers(0, 3)) != 0
     if delimited and entry != "flat_to_file" and draw(st.booleans()):
         logical = draw(st.sampled_from(GROUPED_FOR[phys]))
+    if entry in ("serialize_default", "flat_to_file_default", "grouped_to_file_default"):
+        # nothing is passed: the library guesses FLAT_* / default tables / 250 rows / delimited
+        return {"integration": "rdflib", "entry": entry, "phys": phys, "logical": flat_logical, "delimited": True,
+                "frame_size": 250, "preset": [4000, 150, 32],
+                "params": {"generalized": False, "rdf_star": False, "stream_name": ""}, "statements": stmts,
+                "reader": draw(st.sampled_from(["parse", "to_graph", "flat", "grouped", "parse_path", "parse_path_guess_format"]))}
     return {
         "integration": "rdflib",
         "entry": entry,
@@ -168,7 +181,7 @@ def rdflib_write_case(draw, max_len=14, phys=None):
         "preset": draw(gen.preset_for(stmts)),
         "params": {"generalized": False, "rdf_star": False, "stream_name": draw(gen.stream_names)},
         "statements": stmts,
-        "reader": draw(st.sampled_from(["parse", "to_graph", "flat", "grouped"])),
+        "reader": draw(st.sampled_from(["parse", "to_graph", "flat", "grouped", "parse_path", "parse_path_guess_format"])),
     }
 
 
@@ -215,10 +228,32 @@ def write_rdflib(case):
         stream = pyj.make_stream(case, "rdflib")
         return pyj.frames_to_bytes(rser.stream_frames(stream, g), case["delimited"]), case["delimited"]
     out = io.BytesIO()
+    if entry == "serialize_default":
+        # no options, no stream: everything guessed from the container (guess_options / guess_stream)
+        return rdflib_container(stmts, phys).serialize(format="jelly", encoding="jelly"), True
+    if entry == "serialize_path":
+        import os
+
+        from vlib import iosim
+
+        path = iosim.temp_file(b"") + ".jelly"
+        try:
+            stream = pyj.make_stream(case, "rdflib")
+            rdflib_container(stmts, phys).serialize(destination=path, format="jelly", stream=stream, options=stream.options)
+            with open(path, "rb") as fh:
+                return fh.read(), case["delimited"]
+        finally:
+            for p_ in (path, path[:-6]):
+                if os.path.exists(p_):
+                    os.unlink(p_)
     if entry == "flat_to_file":
         rser.flat_stream_to_file((s for s in pyj.conv_stmts(stmts, "rdflib")), out, options=pyj.make_options(case))
+    elif entry == "flat_to_file_default":
+        rser.flat_stream_to_file((s for s in pyj.conv_stmts(stmts, "rdflib")), out)
     elif entry == "grouped_to_file":
         rser.grouped_stream_to_file((x for x in [rdflib_container(stmts, phys)]), out, options=pyj.make_options(case))
+    elif entry == "grouped_to_file_default":
+        rser.grouped_stream_to_file((x for x in [rdflib_container(stmts, phys)]), out)
     else:
         raise ValueError(entry)
     return out.getvalue(), True
@@ -232,6 +267,23 @@ def read_rdflib(data, reader, phys):
         sink = Graph() if phys == "TRIPLES" else Dataset()
         sink.parse(data=data, format="jelly")
         ev = pyj.sink_events(sink, "rdflib")
+    elif reader in ("parse_path", "parse_path_guess_format"):
+        import os
+
+        from vlib import iosim
+
+        path = iosim.temp_file(data)
+        jpath = path + ".jelly"
+        os.rename(path, jpath)
+        try:
+            sink = Graph() if phys == "TRIPLES" else Dataset()
+            if reader == "parse_path":
+                sink.parse(jpath, format="jelly")
+            else:
+                sink.parse(jpath)  # format guessed from the registered ".jelly" extension
+            ev = pyj.sink_events(sink, "rdflib")
+        finally:
+            os.unlink(jpath)
     elif reader == "to_graph":
         ev = pyj.sink_events(pyj.parse_to_graph(data, "rdflib"), "rdflib")
     elif reader == "flat":
@@ -243,7 +295,7 @@ def read_rdflib(data, reader, phys):
 
 def expected_rdflib(case):
     """Ground truth = what the rdflib container built from the input holds (statement generators: the terms)."""
-    if case["entry"] == "flat_to_file":
+    if case["entry"] in ("flat_to_file", "flat_to_file_default"):
         return {T.norm_stmt([T.rdflib_canon(t) for t in s]) for s in case["statements"]}
     cont = rdflib_container(case["statements"], case["phys"])
     return {T.norm_stmt(s) for s in pyj.sink_events(cont, "rdflib")}
